@@ -4,6 +4,16 @@ import json, os
 V = os.path.dirname(os.path.dirname(os.path.abspath(__file__)))
 
 CLAIMED = {
+ "C01": dict(
+   category="proof", design_ref="DESIGN.md §5 C01",
+   text="21 Lean theorems over ALL histories of {link, unlink, write, answer, close reader, deliver drop, close writer} on the index-addressed model of packet.Writer/Reader: C01.no_panic (index arithmetic in range), C01.exactly_one_response (#responses + #pending = #accepted writes), C01.unaccepted_write_emits_nothing, C01.head_incomplete, C01.refines_partial / in_order_partial / pending_backed_partial (observations equal the id-keyed specification, responses in write order, each the join of its row) under NoRelink, join laws, pump FIFO. The unconditional refinement is refuted (C01.refines_full_false, decide witness) – that is the known finding relink-with-pending. Tied to the code by differential execution of one real Writer with up to 5 Readers (deferred drop notifications made explicit steps by a verif-tagged yield hook), 2.5k histories quick, 290k thorough incl. all histories of length ≤ 6 over 2 readers; independent Go oracle over the harness's write log.",
+   note="Each public method of Writer/Reader is one atomic step (runs under the object's mutex; C20 checks the lock discipline); Go channels/scheduler modelled; payloads opaque. Known findings: relink-with-pending (answers have no request ids), close-discards-buffered (writer pump drops buffered responses when closed). Trusted: Lean kernel, harness, VerifReceive hook.",
+   technique="Lean 4 proof (refinement to an abstract specification by simulation, invariants by induction over histories) + model/implementation differential correspondence"),
+ "C04": dict(
+   category="proof", design_ref="DESIGN.md §5 C04",
+   text="11 Lean theorems over all process forests and ALL schedules of the small-step machine of process.Process (one step per critical section: addHook, fork in two steps, exit flip, one hook per step, join): C04.hook_exactly_once (token conservation: every registration runs at most once, exactly once when its process is terminated and nothing of it is pending – registered before, during or after termination), C04.hook_gets_first_error, C04.status_done_err_agree, C04.cascade / cascade_child, C04.first_error_kept, C04.values_cleared_at_exit. reverse_order and join_after_children are proved only in partial form (full statements kept as defs). Tied to the code by replaying the same step schedules on real processes with goroutines parked in harness hooks (3k cases quick, 48k thorough) plus a free-running oracle.",
+   note="mu.Lock…Unlock sections are atomic steps, WaitGroup is a counter; user hooks do not call back into the process. Partial: cross-thread ordering of the hook log and the Join accounting invariant are not proved (checked by the oracle on the implementation). Trusted: Lean kernel, harness, goroutine wait states from runtime.Stack.",
+   technique="Lean 4 proof (counting invariants over a small-step thread machine, all schedules) + model/implementation differential correspondence"),
  "C18": dict(
    category="proof", design_ref="DESIGN.md §5 C18",
    text="25 Lean theorems about the executable model of template.parse/execute, Meta.Bind/IsBound and Unstructured.Build (text/template itself is a parameter constrained only by hypotheses): C18.substitutes / substitutes_build / bind_then_build (every string leaf and key is replaced by its rendering and nothing else changes, for every nesting and every Go map iteration order), C18.plain_identity (action-free documents come back equal up to nil-vs-empty Fields), C18.bind_selects_* (exactly the value named by id / name / anonymous), C18.missing_rejected, C18.no_panic; the pinned-tree defects are refuted by decide witnesses. Tied to the code by differential execution (10k cases quick, 200k thorough, exhaustive selection sweep, corpus) with real text/template output supplied as a table.",
